@@ -438,8 +438,25 @@ pub fn run(tier: Tier) -> Report {
     plus(&mut ufep0).ufep = 0;
     let pf = plus_fields();
     std_cases(&rich, &pf, &[false, true], "plusptype-rich", true, &mut cases);
-    std_cases(&lean, &pf, &[false, true], "plusptype-lean", false, &mut cases);
-    std_cases(&ufep0, &pf, &[false, true], "plusptype-ufep0", false, &mut cases);
+    std_cases(&lean, &pf, &[false, true], "plusptype-lean", tier.thorough(), &mut cases);
+    std_cases(&ufep0, &pf, &[false, true], "plusptype-ufep0", tier.thorough(), &mut cases);
+    if tier.thorough() {
+        // all triples of fields over the first two boundary values of each, on the rich header
+        for i in 0..pf.len() {
+            for j in i + 1..pf.len() {
+                for k in j + 1..pf.len() {
+                    for m in 0..8usize {
+                        let mut h = rich.clone();
+                        for (bit, f) in [(0, i), (1, j), (2, k)] {
+                            let b = &pf[f].boundary;
+                            (pf[f].full[b[(m >> bit & 1).min(b.len() - 1)]])(&mut h);
+                        }
+                        cases.push(Case { h: H::Std(h), scal: m % 2 == 1, prev: None, phase: 0, stuff: 0, label: "triples" });
+                    }
+                }
+            }
+        }
+    }
     // all 512 x 512 width/height indications (incl. PHI beyond 288: reports what was encoded)
     for pwi in 0..512u16 {
         for phi in 0..512u16 {
